@@ -69,7 +69,7 @@ CLAIMED = {
         'which for a symbol connected from chamber 1 is: the identity is the only degree-respecting congruence. minimal_image (real body): the result is a well-formed '
         'complete symbol onto which the input maps by a chamber map that commutes with every operation and whose fibres are the classes of a degree-respecting '
         'congruence, for a connected symbol the COARSEST one (every degree-respecting congruence refines it: the join of two such congruences is constructed and '
-        'proved to be one), i.e. the image is the smallest quotient of that kind. For complete symbols of one dimension whose source is connected from chamber 1 the map Some(m) assigns EVERY chamber and is a morphism on all of them (lemma_morphism_total, over the contract).',
+        'proved to be one), i.e. the image is the smallest quotient of that kind. For complete symbols of one dimension whose source is connected from chamber 1 the map Some(m) assigns EVERY chamber and is a morphism on all of them (lemma_morphism_total), and every map automorphisms lists is a bijection (lemma_self_morphism_bijective; lemmas over the contracts).',
    note='Trusted: Verus+Z3, vstd. Requires img0 != 0 (0 is the code\'s unassigned marker); fold/is_minimal require a complete symbol and chambers in range; termination. '
         'The degrees of the minimal image are proved in the form m_image = r * (m_source / r) with r the orbit length in the image (equal to m_source whenever r divides it; that it '
         'always does is a theorem about quotients and is not proved). Not decided by contracts (bounded stand-in only): totality/bijectivity of the morphism map '
